@@ -136,6 +136,22 @@ def theorem_status(thm_file: str):
     return ok, status, out
 
 
+def coqchk(thm_file: str):
+    """Independent re-check of the compiled theorem file and everything it depends on (thorough tier)."""
+    mod = "Verif." + thm_file[:-2].replace("/", ".")
+    rc, out = sh(["coqchk", "-silent", "-o", "-Q", "theories", "Verif", mod], timeout=1500, cwd=COQ)
+    m = re.search(r"\* Axioms:(.*?)\n\s*\n\* Constants/Inductives relying on type-in-type:(.*?)\n\s*\n"
+                  r"\* Constants/Inductives relying on unsafe \(co\)fixpoints:(.*?)\n\s*\n"
+                  r"\* Inductives whose positivity is assumed:(.*?)\n", out, re.S)
+    if rc != 0 or not m:
+        return False, {"rc": rc, "tail": out[-600:]}
+    fields = [" ".join(x.split()) for x in m.groups()]
+    axioms = [] if fields[0] == "<none>" else fields[0].split()
+    allowed = set(ALLOWED_AXIOMS.get("*", [])) | set(ALLOWED_AXIOMS.get("coqchk", []))
+    ok = all(a in allowed for a in axioms) and all(f == "<none>" for f in fields[1:])
+    return ok, {"axioms": axioms, "type_in_type": fields[1], "unsafe_fixpoints": fields[2], "assumed_positivity": fields[3]}
+
+
 # ------------------------------------------------------------------ source fingerprints
 def fingerprint(anchors):
     """AST hash per anchored function/class: {"file:qualname": sha}"""
@@ -324,6 +340,12 @@ def check(mod, tier="quick", seed=0, replay=None):
         if bad:
             raise Infra("forbidden construct in the Coq development:\n" + "\n".join(bad))
         thm_ok, thms, thm_log = theorem_status(mod.THEOREMS)
+        chk = None
+        if tier == "thorough" and thm_ok and not os.environ.get("VERIF_NO_COQCHK"):
+            chk_ok, chk = coqchk(mod.THEOREMS)
+            if not chk_ok:
+                thm_ok = False
+                thms["coqchk"] = "FAILED " + json.dumps(chk)
         # 3. fingerprints
         fp = fingerprint(mod.ANCHORS)
         fp_file = VERIF / "fingerprints.json"
@@ -454,6 +476,7 @@ def check(mod, tier="quick", seed=0, replay=None):
                                  f"harness/props/{prop.lower()}.py (generator, implementation driver, canonicalisation)"]
                                 + list(getattr(mod, "TRUSTED", [])),
                 "theorems": thms,
+                "coqchk": chk if chk is not None else "not run in this tier",
                 "correspondence": {"cases": n_eval, "disagreements": len(corr_bad), "spec_failures_on_impl": len(ok_bad),
                                    "spec_failures_on_model": len(model_bad)},
                 "evaluations": n_eval,
